@@ -625,6 +625,136 @@ def caller_correspondence(ctx):
     ctx.note(f'caller correspondence: {npf} peak_filling calls, loess guard grid, 24 knot vectors')
 
 
+# ================================================================== histories on one fitter object
+def history_grid(budget=1):
+    """FIXED, enumerated histories: (x0, [(method, N, kw), ...]).  First calls that raise before the spline
+    basis is cached, after it is cached, deep inside the method, or succeed; then other data lengths."""
+    firsts = [('pspline_asls', {'lam': -1}), ('pspline_arpls', {'diff_order': 0}), ('mixture_model', {'max_iter': None}),
+              ('pspline_asls', {'num_knots': 1}), ('pspline_asls', {'spline_degree': -1}), ('pspline_asls', {}),
+              ('irsqr', {'quantile': 2}), ('asls', {'lam': -1}), ('loess', {'total_points': 0})]
+    seconds = [('pspline_asls', {}), ('pspline_airpls', {}), ('pspline_asls', {'num_knots': 8}), ('mixture_model', {}),
+               ('loess', {'max_iter': 1})]
+    hist = []
+    for x0 in (None, 40):
+        for f in firsts:
+            for sec in seconds:
+                for n2 in (12, 40, 60):
+                    hist.append((x0, [(f[0], 40, f[1]), (sec[0], n2, sec[1])]))
+    # three steps: fail, shorter, longer; two failing calls in a row; a rejected length in between
+    for f in firsts[:3]:
+        hist.append((None, [(f[0], 40, f[1]), ('pspline_asls', 12, {}), ('pspline_asls', 60, {})]))
+        hist.append((None, [(f[0], 60, f[1]), (f[0], 40, f[1]), ('pspline_asls', 12, {})]))
+        hist.append((40, [(f[0], 40, f[1]), ('pspline_asls', 12, {}), ('pspline_asls', 40, {})]))
+    if budget > 1:
+        for f in firsts[:3]:
+            for n1 in (400, 100):
+                for n2 in (60, 10, 2):
+                    hist.append((None, [(f[0], n1, f[1]), ('pspline_asls', n2, {})]))
+    return hist
+
+
+def coq_opt(v):
+    return 'None' if v is None else f'(Some {int(v)})'
+
+
+def history_correspondence(ctx):
+    """Runs the histories on real Baseline objects with the compiled kernels replaced by recorders (no compiled
+    repository code is entered), records cache use / kernel calls / raises and the object state after every call,
+    and compares with coq/C05/State.v driven by the handlers extracted from the source."""
+    su = _mods()[0]
+    from pybaselines import Baseline
+    events = []
+    orig_init, orig_same = su.SplineBasis.__init__, su.SplineBasis.same_basis
+    orig_btb, orig_mdm = su._numba_btb_bty, su._make_design_matrix
+    pyf = su.__dict__['__make_design_matrix']
+    pyf = getattr(pyf, 'py_func', pyf)
+
+    def spy_init(self, x, num_knots=100, spline_degree=3, check_finite=False):
+        orig_init(self, x, num_knots, spline_degree, check_finite)
+        events.append(('spline', int(self.num_knots), int(self.spline_degree)))
+
+    def spy_same(self, num_knots=100, spline_degree=3):
+        r = orig_same(self, num_knots, spline_degree)
+        if r:
+            events.append(('spline', int(num_knots), int(spline_degree)))
+        return r
+
+    def spy_btb(x, knots, degree, y, weights, ab, rhs, basis_data):
+        events.append(('kernel', len(knots) - 2 * int(degree), int(degree), len(x), len(y), len(weights)))
+        raise _Reached()
+
+    def safe_mdm(x, knots, degree):
+        data, ri, ci = pyf(x, knots, degree)
+        return su.csr_object((data, (ri, ci)), (len(x), len(knots) - degree - 1))
+
+    def state(f):
+        b = f._spline_basis
+        return ([0, 0] if f.x is None else [1, len(f.x)]) + ([0, 0] if f._size is None else [1, int(f._size)]) + \
+            ([0, 0, 0, 0] if b is None else [1, int(b.num_knots), int(b.spline_degree), len(b.x)])
+
+    su.SplineBasis.__init__, su.SplineBasis.same_basis = spy_init, spy_same
+    su._numba_btb_bty, su._make_design_matrix = spy_btb, safe_mdm
+    lits = []
+    try:
+        for x0, steps in history_grid(1 if ctx.tier == 'quick' else 2):
+            fitter = Baseline() if x0 is None else Baseline(np.arange(x0, dtype=float))
+            calls, states, obs = [], [], []
+            skip = False
+            for (m, n, kw) in steps:
+                if m == 'loess':
+                    skip = True          # loess enters compiled kernels; it is exercised by the worker oracle only
+                    break
+                del events[:]
+                y = np.sin(np.arange(n) / 3.0) + 2
+                raised = False
+                with warnings.catch_warnings(), np.errstate(all='ignore'):
+                    warnings.simplefilter('ignore')
+                    try:
+                        getattr(fitter, m)(y, **kw)
+                    except Exception:  # noqa
+                        raised = True
+                acts = []
+                for ev in events:
+                    if ev[0] == 'spline':
+                        acts.append(f'ASpline {ev[1]} {zl(ev[2])}')
+                    else:
+                        acts.append('AKernel')
+                        obs.append(list(ev[1:]))
+                        if not (ev[3] == ev[4] == ev[5]):
+                            ctx.fail('history:pspline:stale-state',
+                                     f'Baseline({"" if x0 is None else "x of %d points" % x0}) history {steps}: '
+                                     f'_numba_btb_bty would be called with len(basis.x)={ev[3]}, len(y)={ev[4]}, '
+                                     f'len(weights)={ev[5]}',
+                                     {'kind': 'public', 'method': 'HIST', 'N': 0, 'x': 'uniform',
+                                      'kw': {'x0': x0, 'steps': [[a, b, c] for a, b, c in steps]}})
+                if raised:
+                    acts.append('ARaise')
+                calls.append(f'({n}, [{"; ".join(acts)}])')
+                states.append(state(fitter))
+            if skip:
+                continue
+            ctx.case(('hist', x0, json.dumps(steps, sort_keys=True)), True, kind='history:pspline')
+            lits.append(f'hist_ok {coq_opt(x0)} [{"; ".join(calls)}] {zlist2(states)} {zlist2(obs)}')
+    finally:
+        su.SplineBasis.__init__, su.SplineBasis.same_basis = orig_init, orig_same
+        su._numba_btb_bty, su._make_design_matrix = orig_btb, orig_mdm
+    text = HEADER + '''From PB Require Import gen.GenKernels C05.State.
+Definition hist_ok (x0 : option Z) (calls : list (Z * list act)) (st : list (list Z)) (ob : list (list Z)) : bool :=
+  let '(ss, os) := run_history wrapper_handlers calls (init_state x0) in
+  zll_eqb (map state_flat ss) st && zll_eqb (map obs_flat os) ob.
+Definition cases : list bool := [
+''' + ';\n'.join('  ' + t for t in lits) + '\n].\nEval vm_compute in (bad (fun b : bool => b) cases).\n'
+    ob = 'correspondence:fitter-state-histories(x,_size,cached basis;kernel argument lengths)'
+    ctx.obligations.append(ob)
+    vals = ctx.coq_eval('histories', text)
+    if vals is not None:
+        if vals and (vals[0].startswith('(0%nat, [])') or vals[0].startswith('(0, [])')):
+            ctx.discharged.append(ob)
+        else:
+            ctx.broke(ob, f'state model and recorded object state / kernel arguments disagree: {vals}')
+    ctx.note(f'history correspondence: {len(lits)} histories on one Baseline object (with / without x_data)')
+
+
 # ================================================================== direct oracle (worker processes)
 def oracle_jobs(ctx, budget):
     """(method, N, kwargs) grid of public calls that reach a compiled kernel."""
@@ -663,6 +793,17 @@ def oracle_jobs(ctx, budget):
                     for hw in (None, 2):
                         jobs.append((meth, N, {'sections': {'__seq__': cont, 'v': sq}, 'half_window': hw,
                                                'max_iter': 3}, 'uniform'))
+    # histories on one object (rejected first calls, then other data lengths)
+    for x0, steps in history_grid(budget):
+        jobs.append(('HIST', 0, {'x0': x0, 'steps': [[a, b, c] for a, b, c in steps]}, 'uniform'))
+    # memory layouts and magnitudes of the data
+    for mod in ('negstride', 'strided', 'fortran2d', 'big', 'tiny'):
+        for N in (9, 31):
+            for m, kw in (('pspline_asls', {'max_iter': 2}), ('loess', {'max_iter': 1, 'total_points': 5}),
+                          ('loess', {'max_iter': 1, 'delta': 3.0, 'conserve_memory': False}),
+                          ('peak_filling', {}), ('std_distribution', {'half_window': 2}), ('corner_cutting', {}),
+                          ('beads', {'max_iter': 2, 'freq_cutoff': 0.2}), ('mixture_model', {'max_iter': 2})):
+                jobs.append((m, N, kw, 'uniform+' + mod))
     # P-spline family and other spline methods that use the kernels
     for N in [n for n in small if n >= 2]:
         for degree in (0, 1, 2, 3, 5):
@@ -742,7 +883,9 @@ def job_key(job, status):
 def oracle(ctx, budget):
     jobs = oracle_jobs(ctx, budget)
     ctx.rng.shuffle(jobs)
-    jobs = [j for j in jobs if '__seq__' in json.dumps(j[2])] + [j for j in jobs if '__seq__' not in json.dumps(j[2])]
+    first = [j for j in jobs if j[0] == 'HIST' or '__seq__' in json.dumps(j[2])]
+    fid = set(map(id, first))
+    jobs = first + [j for j in jobs if id(j) not in fid]
     t0 = time.time()
     nproc = min(14, os.cpu_count() or 4)
     found = 0
@@ -789,7 +932,7 @@ def run(ctx):
     ctx.gate()
     ctx.translate(['GenKernels'])
     ok = ctx.build_props()
-    for part in (correspondence, caller_correspondence):
+    for part in (correspondence, caller_correspondence, history_correspondence):
         try:
             part(ctx)
         except Exception:  # noqa
